@@ -64,4 +64,22 @@ def run(tier: str, seed: int, rep: Report, model: Model) -> dict:
         for lib, present in (("np", n2), ("torch", t2), ("jax", j2)):
             if present and p["works"].get(lib) != ["accept", "DLTypeShapeError"]:
                 rep.violation({"what": f"checking does not work for {lib} in this configuration", "works": p["works"], **rec})
+    # a library that is installed but broken (its import raises a plain ImportError, not ModuleNotFoundError) is not importable
+    # either: every mask again in that mode, compared with the observation above
+    from concurrent.futures import ThreadPoolExecutor
+
+    from harness import tables
+
+    keys = [k for k in probes if k != "111" and k[0] == "1"]   # numpy itself intact: torch and jax do not import without it
+    masks = [tuple(c == "1" for c in k) for k in keys]
+    with ThreadPoolExecutor(max_workers=7) as ex:
+        broken = list(ex.map(lambda m: tables.probe(m, broken=True), masks))
+    SAME = ("has_numpy", "has_torch", "has_jax", "import", "supported", "classes", "works")
+    for key, p, b in zip(keys, (probes[k] for k in keys), broken):
+        rep.case(key + ":broken-install", None)
+        rep.count("broken_install_mode:" + str(b.get("import")))
+        diff = {f: {"not_installed": p.get(f), "broken": b.get(f)} for f in SAME if p.get(f) != b.get(f)}
+        if diff:
+            rep.violation({"what": "a library whose import fails with a plain ImportError is not treated like a library that is not installed",
+                           "mask": key, "differences": diff, "message": b.get("msg")})
     return {"masks": sorted(probes)}
